@@ -745,7 +745,7 @@ fn small_p(p: i32) -> Vec<i32> {
     v
 }
 
-fn simplify_step(st: &Step) -> Vec<Step> {
+pub fn simplify_step(st: &Step) -> Vec<Step> {
     let mut o = Vec::new();
     match st {
         Step::Push { k, p, pl } => {
